@@ -480,7 +480,7 @@ fn main() {
     let long = long_series(!run.quick());
     total.merge(par_items(&long, run.threads, |(label, x), ctx| check_long(label, x, &fam.alpha, ctx)));
     let meta = Meta {
-        rule: "history tree of every word over {null,0,1,2,3}; at each word: vquantile on a q-grid (incl. j/(n-1) and j/(n-1)+-1e-12) x 4 interpolation methods, vmedian, vpercentile_of (every score of the alphabet, 0.5, 2.5, null x 3 methods), vrank (pct x rev), vpartition / varg_partition (k in 0..=len+1 x sort x rev), element types f64 / Option<f64> / i32 / Option<i32>; oracle = sort the non-null values and index. Plus the same operations on long structured series (17..=64 elements: ramps, saws, plateaus, zigzags, modular permutations, with null blocks and periodic null patterns). Non-trivial = word with a non-null element. Also (DESIGN 5.15, 5.16): ranks and partitions of ordered non-numeric element types (order-ordered-types: DateTime ns / ms, Time, TimeDelta, String, Option<i64>, Option<bool>); NaN kinds (order-nan-kinds); unsigned element types u64 / Option<u64> / usize; i32 neighbours further apart than the type's MAX (order-int-extremes, tolerance scaled to the gap).".into(),
+        rule: "history tree of every word over {null,0,1,2,3}; at each word: vquantile on a q-grid (incl. j/(n-1) and j/(n-1)+-1e-12) x 4 interpolation methods, vmedian, vpercentile_of (every score of the alphabet, 0.5, 2.5, null x 3 methods), vrank (pct x rev), vpartition / varg_partition (k in 0..=len+1 x sort x rev), element types f64 / Option<f64> / i32 / Option<i32>; oracle = sort the non-null values and index. Plus the same operations on long structured series (17..=64 elements: ramps, saws, plateaus, zigzags, modular permutations, with null blocks and periodic null patterns). Non-trivial = word with a non-null element. Also (DESIGN 5.15, 5.16): ranks and partitions of ordered non-numeric element types (order-ordered-types: DateTime ns / ms, Time, TimeDelta, String, Option<i64>, Option<bool>); NaN kinds (order-nan-kinds); unsigned element types u64 / Option<u64> / usize; i32 neighbours further apart than the type's MAX (order-int-extremes, tolerance scaled to the gap). Round 9 (DESIGN 5.18): TimeDelta alphabets with 300 ns steps and with 40000 d steps (beyond the i64 nanosecond count) among the ordered types.".into(),
         bounds: json!({"alphabet": json_word(&fam.alpha), "L": fam.max_len, "k": "0..=len+1", "q_grid": "0,.1,.2,.25,.3,1/3,.5,2/3,.7,.75,.9,1, j/(n-1), j/(n-1)+-1e-12"}),
         assumptions: vec!["fractional index within 1e-9 of an integer: either neighbouring reading accepted (DESIGN 5.5)".into(),
             "unsorted partitions compared as multisets; arg-partition index sets with ties accepted when the values form the right multiset (DESIGN 5.6)".into()],
